@@ -195,10 +195,10 @@ zgsrfs(trans_t trans, SuperMatrix *A, SuperMatrix *L, SuperMatrix *U,
     else if ( U->nrow != U->ncol || U->nrow < 0 ||
  	      U->Stype != SLU_NC || U->Dtype != SLU_Z || U->Mtype != SLU_TRU )
 	*info = -4;
-    else if ( ldb < SUPERLU_MAX(0, A->nrow) ||
+    else if ( B->ncol < 0 || ldb < SUPERLU_MAX(0, A->nrow) ||
  	      B->Stype != SLU_DN || B->Dtype != SLU_Z || B->Mtype != SLU_GE )
         *info = -10;
-    else if ( ldx < SUPERLU_MAX(0, A->nrow) ||
+    else if ( X->ncol != B->ncol || ldx < SUPERLU_MAX(0, A->nrow) ||
  	      X->Stype != SLU_DN || X->Dtype != SLU_Z || X->Mtype != SLU_GE )
 	*info = -11;
     if (*info != 0) {
